@@ -333,6 +333,7 @@ func (r *Reconciler) getPodList(ds *datadoghqv1alpha1.ExtendedDaemonSet) (*corev
 		client.MatchingLabelsSelector{
 			Selector: podSelector.AsSelectorPreValidated(),
 		},
+		client.InNamespace(ds.Namespace),
 	}
 	if err := r.client.List(context.TODO(), podList, podListOptions...); err != nil {
 		return nil, err
@@ -406,7 +407,7 @@ func (r *Reconciler) getOldDaemonsetPodList(ds *datadoghqv1alpha1.ExtendedDaemon
 		// Error reading the object - requeue the request.
 		return nil, err
 	}
-	podListOptions := []client.ListOption{}
+	podListOptions := []client.ListOption{client.InNamespace(ds.Namespace)}
 	if oldDaemonset.Spec.Selector != nil {
 		selector, err2 := utils.ConvertLabelSelector(r.log, oldDaemonset.Spec.Selector)
 		if err2 != nil {
@@ -417,6 +418,7 @@ func (r *Reconciler) getOldDaemonsetPodList(ds *datadoghqv1alpha1.ExtendedDaemon
 			client.MatchingLabelsSelector{
 				Selector: selector,
 			},
+			client.InNamespace(ds.Namespace),
 		}
 	}
 
